@@ -23,6 +23,10 @@ VAR_CTYPE = {"x": "int", "y": "int", "u": "double", "v": "double", "p": "bool", 
 # ------------------------------------------------------------------------------ C
 
 
+class Malformed(Exception):
+    """The emitted text is not well formed: an LLVM function the verifier rejects, a C constant outside double."""
+
+
 def c_meaning(e, env: trees.Env):
     t = type(e)
     if t is c_ast.ID:
@@ -36,7 +40,10 @@ def c_meaning(e, env: trees.Env):
             # a constant that does not fit int has type long in C: it keeps its value
             return ("int", v, True, ())
         if e.type in ("double", "float"):
-            return ("double", Fraction(float(e.value)), True, ())
+            fv = float(e.value.rstrip("fFlL")) if not e.value.lower().startswith("0x") else float.fromhex(e.value.rstrip("fFlL"))
+            if fv != fv or fv in (float("inf"), float("-inf")):
+                raise Malformed(f"C floating constant {e.value} is outside the range of double")
+            return ("double", Fraction(fv), True, ())
         raise HarnessError(f"C constant {e.type}")
     if t is c_ast.BinaryOp:
         op = e.op
@@ -127,10 +134,6 @@ def norm(ct, v):
 
 
 # ------------------------------------------------------------------------------ LLVM
-
-
-class Malformed(Exception):
-    """The LLVM function is not well formed (a module the LLVM verifier rejects)."""
 
 
 def ll_meaning(fn, env: trees.Env, param_names):
